@@ -43,6 +43,11 @@ type unitSpec struct {
 	// heap of records generated from its declaration (coq/GoTreeHeap.v), the other structs are record values
 	TreeMode bool
 	Cell     string
+	// BTree: (with TreeMode) the B-tree extensions of btreeheap.go: slice-typed fields of the heap struct ([]*Entry,
+	// []*Node), the struct named Pair (Entry{Key, Value}) as an immutable value pair behind a nilable pointer, range
+	// loops, for { }, if init; cond, len / append / copy / slicing, panic, interface{} results
+	BTree bool
+	Pair  string
 }
 
 type absSpec struct {
@@ -106,8 +111,8 @@ var whitelist = []unitSpec{
 	{GoFile: "lists/doublylinkedlist/doublylinkedlist.go", Module: "DoublyLinkedListCellsGen", HeapMode: true, Skip: cellsSkip},
 	// the pointer code of the red-black tree and its iterator (heap of Node records, comparator calls counted)
 	{GoFile: "trees/redblacktree/redblacktree.go", Module: "RedBlackTreeHeapGen", TreeMode: true, Cell: "Node", ExtraFiles: []string{"trees/redblacktree/iterator.go"},
-		Skip: treeSkip},
-	// the pointer code of the AVL tree's read paths, Node.Next / Prev (walk1) and its iterator
+		Skip: rbTreeSkip},
+	// the pointer code of the AVL tree (read paths, Put / Remove on **Node links: treelink.go), Node.Next / Prev (walk1) and its iterator
 	{GoFile: "trees/avltree/avltree.go", Module: "AVLTreeHeapGen", TreeMode: true, Cell: "Node", ExtraFiles: []string{"trees/avltree/iterator.go"},
 		Skip: avlSkip},
 	{GoFile: "queues/priorityqueue/priorityqueue.go", Module: "PriorityQueueWrapGen", ExtraFiles: []string{"queues/priorityqueue/serialization.go"},
@@ -151,8 +156,8 @@ var treeSkip = map[string]string{"String": skipFmt, "output": skipFmt,
 	"Keys":   "fills a slice through an iterator object (`it := tree.Iterator(); for i := 0; it.Next(); i++`); the walk itself is Iterator.Next, which is translated",
 	"Values": "fills a slice through an iterator object; the walk itself is Iterator.Next, which is translated"}
 
-const skipPtrPtr = "the AVL write path works on **Node (the address of a child slot / of Tree.Root): pointers to pointers are not translated"
+// the AVL write path (Put / Remove on **Node) is translated: treelink.go
+var avlSkip = map[string]string{"String": skipFmt, "output": skipFmt, "Keys": treeSkip["Keys"], "Values": treeSkip["Values"]}
 
-var avlSkip = map[string]string{"String": skipFmt, "output": skipFmt, "Keys": treeSkip["Keys"], "Values": treeSkip["Values"],
-	"Put": skipPtrPtr, "Remove": skipPtrPtr, "put": skipPtrPtr, "remove": skipPtrPtr, "removeMin": skipPtrPtr, "putFix": skipPtrPtr, "removeFix": skipPtrPtr,
-	"singlerot": "helper of the (untranslated) write path", "doublerot": "helper of the (untranslated) write path", "rotate": "helper of the (untranslated) write path"}
+// the red-black unit translates Keys / Values too (a local iterator record built from the receiver, a slice made by the function)
+var rbTreeSkip = map[string]string{"String": skipFmt, "output": skipFmt}
